@@ -260,6 +260,8 @@ class Evaluator:
             return self.callexpr(m, e, env)
         if isinstance(e, ast.Attribute):
             d = dotted(e)
+            if d in ("os.sep", "os.path.sep", "posixpath.sep"):
+                return getattr(self, "sep", "/")  # the path algebra is modelled by posixpath unless the caller sets another separator
             if d is None and e.attr in ("suffix", "name", "stem", "suffixes", "parent"):
                 v = self.expr(m, e.value, env)
                 if isinstance(v, pathlib.PurePosixPath):
